@@ -54,6 +54,24 @@ impl Decode for RawRest {
     }
 }
 
+/// like `RawRest`, a second value type for the dual-kind column (decodes any stored bytes)
+#[derive(Debug, Clone, PartialEq, Eq, Hash)]
+struct RawVal2(Vec<u8>);
+impl Encode for RawVal2 {
+    fn encode<E: Encoder + ?Sized>(&self, e: &mut E, _p: &Plugin, _s: &mut Session) -> io::Result<()> {
+        e.emit_raw_bytes(&self.0)
+    }
+}
+impl Decode for RawVal2 {
+    fn decode<D: Decoder + ?Sized>(d: &mut D, _p: &Plugin, _s: &mut Session) -> io::Result<Self> {
+        let mut v = Vec::new();
+        while let Ok(b) = d.read_u8() {
+            v.push(b);
+        }
+        Ok(RawVal2(v))
+    }
+}
+
 #[derive(Debug, Clone, PartialEq, Eq, Encode, Decode)]
 struct VA(Vec<u8>);
 #[derive(Debug, Clone, PartialEq, Eq, Encode, Decode)]
@@ -220,6 +238,12 @@ impl GenVal for VB {
         VB((0..n).map(|_| char::from(b'a' + (rng.below(26) as u8))).collect())
     }
 }
+impl GenVal for RawRest {
+    fn make(rng: &mut Rng) -> Self { RawRest(VA::make(rng).0) }
+}
+impl GenVal for RawVal2 {
+    fn make(rng: &mut Rng) -> Self { RawVal2(VA::make(rng).0) }
+}
 impl GenVal for VC {
     fn make(rng: &mut Rng) -> Self { VC(*rng.pick(&[0u64, 1, 127, 128, u64::MAX, rng.0])) }
 }
@@ -276,7 +300,7 @@ set_col!(S4, u64, String);
 set_col!(S5, RawKey, Vec<u8>);
 // one type used as BOTH a wide column and a key-of-set column (the column-family cache of both
 // backends is keyed by the type id alone): observed and compared with the model, not judged by the oracle.
-wide_col!(Dual, [u8; 9], u8, Prefixed, [VA => 0, VB => 1]);
+wide_col!(Dual, [u8; 9], u8, Prefixed, [RawRest => 0, RawVal2 => 1]);
 set_col!(Dual, RawKey, RawRest);
 
 const N_WIDE: usize = 8; // W0..W6, Dual
@@ -529,8 +553,8 @@ fn wide_handle<D: Be>(g: &mut Gen, ci: usize, vi: usize, ki: Option<usize>) -> W
         6 => { let k = key!(u64); wide3!(D, W6, g, ci, vi, k) }
         _ => {
             let k = key!([u8; 9]);
-            if vi == 0 { let v = VA::make(&mut g.rng); mk_wide::<D, Dual, VA>(ci, 0, k, v) }
-            else { let v = VB::make(&mut g.rng); mk_wide::<D, Dual, VB>(ci, 1, k, v) }
+            if vi == 0 { let v = RawRest::make(&mut g.rng); mk_wide::<D, Dual, RawRest>(ci, 0, k, v) }
+            else { let v = RawVal2::make(&mut g.rng); mk_wide::<D, Dual, RawVal2>(ci, 1, k, v) }
         }
     }
 }
@@ -775,7 +799,7 @@ fn run_case<D: Be>(seed: u64, case_ix: u64, tier: &str, out: &mut Out, st: &mut 
                 pend_b.clear();
                 pend_s.clear();
                 if let Some(d) = db.take() {
-                    if !close_db(d) { st.bump("backend_close_hung_case_abandoned"); return; } // close first
+                    if !close_db(d) { st.bump(&format!("backend_close_hung_case_abandoned_{}", D::TAG)); return; } // close first
                 }
                 db = Some(D::open_at(&dir));
                 "ok".into()
@@ -784,10 +808,10 @@ fn run_case<D: Be>(seed: u64, case_ix: u64, tier: &str, out: &mut Out, st: &mut 
                 batches.clear();
                 sbufs.clear();
                 if let Some(d) = db.take() {
-                    if !close_db(d) { st.bump("backend_close_hung_case_abandoned"); return; }
+                    if !close_db(d) { st.bump(&format!("backend_close_hung_case_abandoned_{}", D::TAG)); return; }
                 }
                 let d = catch_unwind(AssertUnwindSafe(|| D::raw_dump(&dir))).unwrap_or_else(|_| "raw-panic".into());
-                if d == "raw-close-hung" { st.bump("backend_close_hung_case_abandoned"); return; }
+                if d == "raw-close-hung" { st.bump(&format!("backend_close_hung_case_abandoned_{}", D::TAG)); return; }
                 db = Some(D::open_at(&dir));
                 st.bump_n("raw_entries_compared", d.matches('=').count() as u64);
                 d
@@ -985,7 +1009,7 @@ fn run_case<D: Be>(seed: u64, case_ix: u64, tier: &str, out: &mut Out, st: &mut 
     drop(batches);
     drop(sbufs);
     if let Some(d) = db.take() {
-        if !close_db(d) { st.bump("backend_close_hung_case_abandoned"); return; }
+        if !close_db(d) { st.bump(&format!("backend_close_hung_case_abandoned_{}", D::TAG)); return; }
     }
     let _ = std::fs::remove_dir_all(&dir);
 }
@@ -1049,7 +1073,7 @@ fn atomic_probe<D: Be>(seed: u64, want_reads: u64, st: &mut Stats) {
     for d in bad {
         st.failures.push((format!("{}:batch-not-atomic", D::TAG), d, format!("kv seed={seed} atomic-probe backend={}", D::TAG)));
     }
-    if !close_db(db) { st.bump("backend_close_hung_case_abandoned"); return; }
+    if !close_db(db) { st.bump(&format!("backend_close_hung_case_abandoned_{}", D::TAG)); return; }
     let _ = std::fs::remove_dir_all(&dir);
 }
 
